@@ -207,6 +207,9 @@ def texts(rnd, n):
            '99:99:99', '9:99', '99:59', '100:00', '1:00:00:00', 'abc', '1e3', '1,000', '1 00', '-5', '+5', '5.', '.5', '5..5', '5:', ':5', '6.5.4.3', '2.45',
            '2.46', '2.94', '2.95', '8.95', '10.74', '10.75', '23.12', '27.74', '27.75', '104.80', '125.76', '125.77', '1.8', '18', '180', '7000', '7000.5',
            '9999', '10000', '09999', '1234.0', '12 34', '8:', '6,50', '6,5,0', '１２.5', '٣.5', '5\n', '\t12.5 ']
+    # absurdly long digit runs (PAT_PERF does not bound the last field): inf / overflow inside the heuristics
+    for big in ('9' * 309, '9' * 400, '1' + '0' * 320):
+        out += ['50:' + big, '46:' + big, '1:' + big, big, '12.' + big, '1:02:' + big, '50:' + big + '.5', '59;' + big]
     for pre in ('', '1:', '59:', '1:00:', '1:59:', '2:30:', '0:59:', '00:', '3:00:', '12:', '1:01:'):
         for sec in ('59.99', '59.994', '59.995', '59.999', '59.9999', '59,9991', '9.999', '9.995', '09.996', '59.9', '00.004', '00.005', '0.999'):
             out.append(pre + sec)
